@@ -148,6 +148,10 @@ class InitStreamAndLinalgMemorySpace(RewritePattern):
                     isinstance(use.operation, memref.MemorySpaceCastOp)
                     and isinstance(use_type := use.operation.dest.type, builtin.MemRefType)
                     and use_type.memory_space == L1.attribute
+                    # the cast must be visible from the op: in its block or an enclosing one, in front of it
+                    and (cast_block := use.operation.parent_block()) is not None
+                    and (ancestor := cast_block.find_ancestor_op_in_block(op)) is not None
+                    and cast_block.get_operation_index(use.operation) < cast_block.get_operation_index(ancestor)
                 ):
                     cast_op = use.operation
                     break
